@@ -164,6 +164,26 @@ theorem C06_describe_sends_no_setseed (seed : Option Nat) :
     sent ⟨true, seed⟩ = [.statement] ∧ (∀ s, sent ⟨false, some s⟩ = [.setseed s, .statement]) ∧ sent ⟨false, none⟩ = [.statement] := by
   cases seed <;> exact ⟨rfl, fun _ => rfl, rfl⟩
 
+/-- **Reading `description` twice gives the same answer**: with a pure DESCRIBE, a second read (no execute in between) returns
+    what the first returned — the answer is a function of the cursor's stored SQL/parameters and the engine state only
+    (the stored parameters are the cursor's own copy; nothing the caller does to its argument objects afterwards matters). -/
+theorem C06_description_stable {D S R Q} (e : Engine D R Q) (hpure : ∀ d q p, (e.describe d q p).1 = d) (c : Conn D S R Q) (i : Nat) :
+    (description e (description e c i).1 i).2 = (description e c i).2 := by
+  rw [C06_description_pure e hpure c i]
+
+/-- the full statement for `describe(q)` over statement kinds: it returns the description `q` would have -/
+def C06_describe_Full : Prop := ∀ k, k ≠ .beforeExecute → describeOf k = .ofResult
+
+/-- **`describe(q)`, partial**: for queries (also seeded ones) `describe(q)` yields the query's own columns. -/
+theorem C06_describe_partial (k : Kind) (h : k = .query ∨ k = .seededQuery) : describeOf k = .ofResult := by
+  rcases h with rfl | rfl <;> rfl
+
+/-- known finding `C06/describe-non-query`: `describe()` of DML, DDL, USE, SET, BEGIN … raises (`DESCRIBE insert …` is not a
+    statement) instead of returning the status-row description the statement would have; it changes nothing, though
+    (`C06_describe_pure`). -/
+theorem finding_C06_describe_non_query : describeOf .statusSelect = .raises ∧ ¬ C06_describe_Full :=
+  ⟨rfl, fun h => by have := h .statusSelect (by decide); revert this; decide⟩
+
 /-! ### non-vacuity -/
 example : searchDec "DECIMAL(10,2)".toList = some (10, 2) := by decide
 example : renderDecimal 38 10 = "DECIMAL(38,10)".toList := by decide
